@@ -13,7 +13,7 @@ helper is handed another table, or an item is folded with another parser."""
 import json, os, re
 import hir, maps, emit
 from hir import strip, field_path
-from pskel import Skel, to_json, diff, PARAMS, argkey
+from pskel import Skel, to_json, diff, PARAMS, argkey, ITER_LOOPS
 
 TABLE = os.path.join(os.path.dirname(os.path.dirname(os.path.abspath(__file__))), "tables", "lexical_skeletons.json")
 MODULES = ("impl_lexical::parser", "lexical_fold::impl_enum")
@@ -24,6 +24,15 @@ CRATE_MARKS = ("conversion::", "lexical::", "enum_narsese::", "api::")
 
 
 class LSkel(Skel):
+    def norm(self, ops):
+        out = []
+        for o in Skel.norm(self, ops):
+            if o and o[0] == "loop" and o[1] and all(x == ("push",) for x in o[1]):
+                out.append(("push",))          # `for t in src { vec.push(t) }` is `vec.extend(src)`
+            else:
+                out.append(o)
+        return tuple(out)
+
     def ops(self, e):
         if e is None:
             return []
@@ -33,7 +42,11 @@ class LSkel(Skel):
             m = e0["method"]
             inner = self.ops(e0["recv"])
             for a in e0["args"]:
-                inner += self.ops(a)
+                if m in ITER_LOOPS and m != "filter" and strip(a).get("k") == "Closure":
+                    b_ = self.norm(self.ops(strip(a)["body"]))          # `it.for_each(|x| B)` is `for x in it { B }`
+                    inner += [("loop", b_)] if b_ else []
+                else:
+                    inner += self.ops(a)
             rp = field_path(strip(e0["recv"]))
             if m in DICT:
                 tf = maps.table_field(rp) if rp else None
@@ -43,7 +56,7 @@ class LSkel(Skel):
             if m in STORE and rp and len(rp) == 1 and not rp[0].endswith("buffer"):
                 ty = (strip(e0["recv"]).get("ty") or "")
                 if "Term" in ty or "String>" in ty or "HashSet" in ty or "Vec<" in ty:
-                    return inner + [("push", m)]
+                    return inner + [("push",)]          # push / insert / extend: a component is stored (one by one or in bulk)
             if m == "filter" and e0["args"] and strip(e0["args"][0])["k"] == "Closure":
                 return inner + [("filter", emit.label(e0["args"][0], {}))]
             if m == "parse" and e0.get("ty") and e0["args"]:
